@@ -23,6 +23,11 @@ ASSUMPTIONS = [
     "likelihoods are 0 or in [1e-6, 4]; T <= 8 epochs, 1..5 candidate states per epoch, labels unique within an epoch",
     "enumeration oracle: every one of the prod(S_k) <= 5^8 sequences is scored; comparisons 1e-9 relative (+1e-9 absolute)",
     "log=True clause only on strictly positive tables (log 0 is undefined)",
+    "history: the statement holds for every call of estimate, so a decoding is judged against the enumeration of the model of THAT call, "
+    "whether the track is new, was decoded before (with this or another model, other candidate counts) or already carries "
+    "features named hmm_inference / hmm_cost; the epoch count of a track is fixed, the observation features are not touched",
+    "hand-over of the candidates: the states callback may return a new list per call, one list object per epoch, or the SAME list object "
+    "for consecutive / all epochs with equal candidates (fixed state space); the tables P[k], Q[k] stay epoch-dependent in every case",
 ]
 
 LABEL_POOL = [0, 1, 2, -1, "a", "b", [0, 1], [1, 0], "s0", 7]
@@ -93,20 +98,67 @@ def enumerate_all(P, Q):
 
 
 # --- running tracklib on a model --------------------------------------------------------------------
-def _decode(states, P, Q, obs, log, api, verbose):
-    """Runs HMM.estimate on a fresh track; returns (list of decoded indices, hmm_cost at the last epoch)."""
-    T = len(states)
+SHARE_MODES = ["fresh", "epoch", "run", "content"]
+
+
+def _new_track(T, obs, prefilled=False):
     nobs = len(obs[0])
     names = ["obs_a", "obs_b"][:nobs]
     feats = {names[j]: [obs[k][j] for k in range(T)] for j in range(nobs)}
     track = gen.make_track([(float(k), 0.0) for k in range(T)], features=feats)
+    if prefilled:
+        # the output features exist already (left by somebody else), with values that are no candidates / no costs
+        track.createAnalyticalFeature("hmm_cost", [-5.0] * T)
+        track.createAnalyticalFeature("hmm_inference", ["?"] * T)
+    return track
+
+
+def _handover(states, share):
+    """How the states callback hands the candidate lists over.  fresh: a new list at every call; epoch: one list
+    object per epoch (equal contents are still distinct objects); run: consecutive epochs with equal candidates get
+    the SAME list object; content: all epochs with equal candidates (adjacent or not) get the same object.
+    Returns (callback table or None, length of the longest run of consecutive epochs served by one object)."""
+    T = len(states)
+    if share == "fresh":
+        return None, 1
+    if share == "epoch":
+        return [list(r) for r in states], 1
+    objs = []
+    if share == "run":
+        for k in range(T):
+            objs.append(objs[k - 1] if k and states[k] == states[k - 1] else list(states[k]))
+    else:
+        seen = []
+        for k in range(T):
+            for o in seen:
+                if o == states[k]:
+                    objs.append(o)
+                    break
+            else:
+                seen.append(list(states[k]))
+                objs.append(seen[-1])
+    longest = run = 1
+    for k in range(1, T):
+        run = run + 1 if objs[k] is objs[k - 1] else 1
+        longest = max(longest, run)
+    return objs, longest
+
+
+def _decode(states, P, Q, obs, log, api, verbose, track=None, share="fresh"):
+    """Runs HMM.estimate on `track` (a fresh one if None); returns (list of decoded indices, hmm_cost at the last epoch)."""
+    T = len(states)
+    nobs = len(obs[0])
+    names = ["obs_a", "obs_b"][:nobs]
+    if track is None:
+        track = _new_track(T, obs)
     index = [{s: i for i, s in enumerate(row)} for row in states]
+    objs, _ = _handover(states, share)
 
     def tab(v):
         return math.log(v) if log else v
 
     def S(t, k):
-        return list(states[k])
+        return list(states[k]) if objs is None else objs[k]
 
     def Pf(s, y, k, t):
         if not (isinstance(k, int) and 0 <= k < T) or s not in index[k]:
@@ -145,30 +197,28 @@ def _decode(states, P, Q, obs, log, api, verbose):
     return out, track.getObsAnalyticalFeature("hmm_cost", T - 1)
 
 
-def check_model(states, P, Q, obs, api=0, verbose=0, with_log=True):
-    T = len(states)
-    cmin, pmax, ties = enumerate_all(P, Q)
-    what = "states=%r P=%r Q=%r" % (states, P, Q)
+def _positive(P, Q):
+    return all(v > 0 for row in P for v in row) and all(v > 0 for m in Q for row in m for v in row)
 
-    idx, last = _decode(states, P, Q, obs, False, api, verbose)
+
+def _judge(idx, last, P, Q, cmin, pmax, log, what):
+    """One decoding against the enumeration of ITS model (whatever was decoded on the track before)."""
+    pre = "log-mode-" if log else "decoded-"
     c = seq_cost(P, Q, idx)
     if not _le(c, cmin):
-        raise Violation("decoded-suboptimal", "decoded %r costs %r, enumeration minimum %r; %s" % (idx, c, cmin, what))
+        raise Violation(pre + "suboptimal", "%sdecoded %r costs %r, enumeration minimum %r; %s"
+                        % ("log=True " if log else "", idx, c, cmin, what))
     if not (isinstance(last, (int, float)) and _le(last, cmin) and _le(cmin, last)):
-        raise Violation("last-cost-wrong", "hmm_cost[last] = %r, enumeration minimum %r; %s" % (last, cmin, what))
-    p = seq_prod(P, Q, idx)
-    if p < pmax * (1 - REL):
-        raise Violation("product-not-maximal", "decoded %r has likelihood %r, maximum %r; %s" % (idx, p, pmax, what))
+        raise Violation("log-mode-last-cost-wrong" if log else "last-cost-wrong",
+                        "%shmm_cost[last] = %r, enumeration minimum %r; %s" % ("log=True " if log else "", last, cmin, what))
+    if not log:
+        p = seq_prod(P, Q, idx)
+        if p < pmax * (1 - REL):
+            raise Violation("product-not-maximal", "decoded %r has likelihood %r, maximum %r; %s" % (idx, p, pmax, what))
 
-    positive = all(v > 0 for row in P for v in row) and all(v > 0 for m in Q for row in m for v in row)
-    if positive and with_log:
-        idx2, last2 = _decode(states, P, Q, obs, True, api, verbose)
-        c2 = seq_cost(P, Q, idx2)
-        if not _le(c2, cmin):
-            raise Violation("log-mode-suboptimal", "log=True decodes %r of cost %r, minimum %r; %s" % (idx2, c2, cmin, what))
-        if not (isinstance(last2, (int, float)) and _le(last2, cmin) and _le(cmin, last2)):
-            raise Violation("log-mode-last-cost-wrong", "log=True hmm_cost[last] = %r, minimum %r; %s" % (last2, cmin, what))
 
+def _model_classes(states, P, Q, cmin, pmax, ties, positive, with_log):
+    T = len(states)
     sizes = [len(r) for r in states]
     greedy = [max(range(len(r)), key=lambda i: (r[i], -i)) for r in P]
     greedy_opt = _le(seq_cost(P, Q, greedy), cmin)
@@ -188,40 +238,138 @@ def check_model(states, P, Q, obs, api=0, verbose=0, with_log=True):
         cls.append("log-clause")
     if len(set(sizes)) > 1:
         cls.append("sizes-vary")
+    return nt, cls
+
+
+def check_model(states, P, Q, obs, api=0, verbose=0, with_log=True):
+    """One model, every decoding on a fresh track, candidate lists built anew at every call."""
+    cmin, pmax, ties = enumerate_all(P, Q)
+    what = "states=%r P=%r Q=%r" % (states, P, Q)
+    idx, last = _decode(states, P, Q, obs, False, api, verbose)
+    _judge(idx, last, P, Q, cmin, pmax, False, what)
+    positive = _positive(P, Q)
+    if positive and with_log:
+        idx2, last2 = _decode(states, P, Q, obs, True, api, verbose)
+        _judge(idx2, last2, P, Q, cmin, pmax, True, what)
+    nt, cls = _model_classes(states, P, Q, cmin, pmax, ties, positive, with_log)
     return {"nt": nt, "cls": cls}
 
 
 # --- explicit models (Hypothesis) -----------------------------------------------------------------
+def _states_of(m):
+    return [[_label(s) for s in row] for row in m["states"]]
+
+
 def body_model(case):
-    states = [[_label(s) for s in row] for row in case["states"]]
+    """case = first model (+ "share", "track", "prefilled") and "then" = further models decoded afterwards.
+    track == "same": ONE track object goes through all decodings (it carries hmm_inference / hmm_cost of the earlier
+    ones); track == "fresh": a new track per decoding.  Every decoding gets the full enumeration oracle of its model."""
     obs = [o if isinstance(o, list) else [o] for o in case["obs"]]
-    info = check_model(states, case["P"], case["Q"], obs, case.get("api", 0), case.get("verbose", 0))
-    shared = any(set(states[k]) & set(states[k + 1]) for k in range(len(states) - 1))
-    info["cls"].append("labels-shared-between-epochs" if shared else "labels-disjoint")
-    if case.get("verbose", 0):
-        info["cls"].append("verbose")
-    return info
+    T = len(case["states"])
+    same_track = case.get("track", "fresh") == "same"
+    prefilled = bool(case.get("prefilled", False))
+    models = [case] + list(case.get("then", []))
+    track = _new_track(T, obs, prefilled) if same_track else None
+    cls, nt, ndec, longest_all = [], False, 0, 1
+    seen = []
+    for j, m in enumerate(models):
+        states = _states_of(m)
+        P, Q = m["P"], m["Q"]
+        api, verbose, share = m.get("api", 0), m.get("verbose", 0), m.get("share", "fresh")
+        cmin, pmax, ties = enumerate_all(P, Q)
+        positive = _positive(P, Q)
+        what = "decoding %d of %d (track=%s share=%s) states=%r P=%r Q=%r" % (
+            j + 1, len(models), case.get("track", "fresh"), share, states, P, Q)
+        # first model: likelihoods, then (positive tables) logarithms, as before; later models: the drawn flag
+        logs = ([False, True] if positive else [False]) if j == 0 else [bool(m.get("log", False)) and positive]
+        for log in logs:
+            tr = track if same_track else _new_track(T, obs, prefilled)
+            try:
+                idx, last = _decode(states, P, Q, obs, log, api, verbose, tr, share)
+                _judge(idx, last, P, Q, cmin, pmax, log, what)
+            except Violation as v:
+                # root-cause label: does the same model decode correctly on a new track / with lists built per call?
+                used = prefilled or (same_track and ndec > 0)
+                for cond, sh, pre in ((used, share, "on-used-track-"), (share != "fresh", "fresh", "shared-list-object-")):
+                    if not cond:
+                        continue
+                    try:
+                        i2, l2 = _decode(states, P, Q, obs, log, api, 0, None, sh)
+                        _judge(i2, l2, P, Q, cmin, pmax, log, what)
+                    except Violation:
+                        continue
+                    raise Violation(pre + v.key, v.msg)
+                raise
+            ndec += 1
+        nt_j, cls_j = _model_classes(states, P, Q, cmin, pmax, ties, positive, j == 0)
+        nt = nt or nt_j
+        if j == 0:
+            cls += cls_j
+            shared = any(set(states[k]) & set(states[k + 1]) for k in range(T - 1))
+            cls.append("labels-shared-between-epochs" if shared else "labels-disjoint")
+        else:
+            key = (states, P, Q)
+            cls.append("redecode:same-model" if key in seen else "redecode:other-model")
+            if [len(r) for r in states] != [len(r) for r in _states_of(case)]:
+                cls.append("redecode:other-state-counts")
+        seen.append((states, P, Q))
+        _, longest = _handover(states, share)
+        longest_all = max(longest_all, longest)
+        cls.append("share=" + share)
+        if longest >= 3:
+            cls.append("one-list-object-for>=3-epochs")
+            if any(Q[k] != Q[k + 1] for k in range(T - 2)):
+                cls.append("one-list-object-for>=3-epochs,Q-epoch-dependent")
+        elif longest == 2:
+            cls.append("one-list-object-for-2-epochs")
+    cls.append("track=" + ("same" if same_track else "fresh"))
+    if same_track:
+        cls.append("decodings-on-one-track=%d" % ndec)
+    if prefilled:
+        cls.append("outputs-prefilled")
+    if any(m.get("verbose", 0) for m in models):
+        cls.append("verbose")
+    return {"nt": nt, "cls": sorted(set(cls))}
 
 
 @st.composite
-def _model(draw):
-    T = draw(st.one_of(st.integers(1, 8), st.integers(2, 5)))
-    smode = draw(st.sampled_from(["free", "free", "free", "const", "two"]))
-    if smode == "const":
-        s = draw(st.integers(1, 5))
-        sizes = [s] * T
-    elif smode == "two":
-        sizes = draw(st.lists(st.integers(1, 2), min_size=T, max_size=T))
+def _tables(draw, T, force_states=None):
+    """states + P + Q of one model over T epochs"""
+    lmode = draw(st.sampled_from(["perm", "perm", "same-order", "epoch-tagged", "runs", "runs", "one-list"]))
+    if force_states is not None:
+        states = force_states
+        sizes = [len(r) for r in states]
+    elif lmode in ("runs", "one-list"):
+        # classic fixed state space: the same candidates for all epochs / for runs of consecutive epochs
+        if lmode == "one-list":
+            lens = [T]
+        else:
+            lens, left = [], T
+            while left:
+                n = draw(st.integers(1, min(left, 4)))
+                lens.append(n)
+                left -= n
+        states = []
+        for n in lens:
+            row = list(draw(st.permutations(LABEL_POOL))[:draw(st.sampled_from([1, 2, 2, 3, 3, 4, 5]))])
+            states += [list(row) for _ in range(n)]
+        sizes = [len(r) for r in states]
     else:
-        sizes = draw(st.lists(st.integers(1, 5), min_size=T, max_size=T))
-    lmode = draw(st.sampled_from(["perm", "perm", "same-order", "epoch-tagged"]))
-    if lmode == "same-order":
-        perm = draw(st.permutations(LABEL_POOL))
-        states = [list(perm[:n]) for n in sizes]
-    elif lmode == "epoch-tagged":
-        states = [[[k, i] for i in range(n)] for k, n in enumerate(sizes)]
-    else:
-        states = [list(draw(st.permutations(LABEL_POOL))[:n]) for n in sizes]
+        smode = draw(st.sampled_from(["free", "free", "free", "const", "two"]))
+        if smode == "const":
+            s = draw(st.integers(1, 5))
+            sizes = [s] * T
+        elif smode == "two":
+            sizes = draw(st.lists(st.integers(1, 2), min_size=T, max_size=T))
+        else:
+            sizes = draw(st.lists(st.integers(1, 5), min_size=T, max_size=T))
+        if lmode == "same-order":
+            perm = draw(st.permutations(LABEL_POOL))
+            states = [list(perm[:n]) for n in sizes]
+        elif lmode == "epoch-tagged":
+            states = [[[k, i] for i in range(n)] for k, n in enumerate(sizes)]
+        else:
+            states = [list(draw(st.permutations(LABEL_POOL))[:n]) for n in sizes]
     vmode = draw(st.sampled_from(["lattice", "lattice", "tern", "float", "mixed", "positive-lattice"]))
     lat = st.sampled_from([0.0, 0.25, 0.5, 1.0, 2.0])
     flo = st.floats(min_value=FLOAT_LO, max_value=4.0, allow_nan=False, allow_infinity=False)
@@ -230,14 +378,45 @@ def _model(draw):
     P = [draw(st.lists(val, min_size=n, max_size=n)) for n in sizes]
     Q = [[draw(st.lists(val, min_size=sizes[k + 1], max_size=sizes[k + 1])) for _ in range(sizes[k])]
          for k in range(T - 1)]
+    return {"states": states, "P": P, "Q": Q}
+
+
+_HOW = {"api": st.integers(0, 1), "verbose": st.sampled_from([0, 0, 0, 0, 1, 2, 3]),
+        "share": st.sampled_from(["fresh", "fresh", "epoch", "run", "run", "content"])}
+
+
+@st.composite
+def _model(draw):
+    T = draw(st.one_of(st.integers(1, 8), st.integers(2, 5)))
+    case = draw(_tables(T))
     nobs = draw(st.sampled_from([1, 1, 2]))
     oval = st.one_of(st.integers(-3, 3), st.sampled_from(["u", "v"]), st.just(0.5))
     if nobs == 1:
-        obs = draw(st.lists(oval, min_size=T, max_size=T))
+        case["obs"] = draw(st.lists(oval, min_size=T, max_size=T))
     else:
-        obs = [draw(st.lists(oval, min_size=2, max_size=2)) for _ in range(T)]
-    return {"states": states, "P": P, "Q": Q, "obs": obs,
-            "api": draw(st.integers(0, 1)), "verbose": draw(st.sampled_from([0, 0, 0, 0, 1, 2, 3]))}
+        case["obs"] = [draw(st.lists(oval, min_size=2, max_size=2)) for _ in range(T)]
+    for f in ("api", "verbose", "share"):
+        case[f] = draw(_HOW[f])
+    # history: up to two further decodings; one track object for all of them, or a fresh track each time
+    nthen = draw(st.sampled_from([0, 0, 1, 1, 2]))
+    case["track"] = draw(st.sampled_from(["fresh", "same", "same"]))
+    case["prefilled"] = draw(st.sampled_from([False, False, False, True]))
+    then = []
+    for _ in range(nthen):
+        kind = draw(st.sampled_from(["other", "other", "other-tables", "same"]))
+        if kind == "same":
+            src = draw(st.sampled_from([case] + then))
+            m = {f: src[f] for f in ("states", "P", "Q")}
+        elif kind == "other-tables":
+            m = draw(_tables(T, force_states=case["states"]))
+        else:
+            m = draw(_tables(T))
+        for f in ("api", "verbose", "share"):
+            m[f] = draw(_HOW[f])
+        m["log"] = draw(st.booleans())
+        then.append(m)
+    case["then"] = then
+    return case
 
 
 def strat_model():
@@ -289,15 +468,22 @@ def body_small(case):
 
 RULE = ("small: EVERY model with T <= 3 epochs, 1..2 states per epoch and all likelihood tables over {0, 1/2, 1} "
         "(quick: all shapes except 2x2x2 = 460 404 models; thorough: also 2x2x2 = 3^14 more), one case per model; "
-        "models: Hypothesis, T 1..8, 1..5 states per epoch (free / constant / <=2), labels from a 10-element pool "
+        "models: Hypothesis, T 1..8, 1..5 states per epoch (free / constant / <=2 / one candidate list for all epochs / for runs of 1..4 "
+        "consecutive epochs), labels from a 10-element pool "
         "(ints, strings, tuples; shared or disjoint between epochs), tables from {0,1/4,1/2,1,2}, {0,1/2,1}, floats in [1e-6,4] or mixed, "
         "1- or 2-dimensional observations, both ways of building the HMM, all verbose modes; each model is compared with the "
         "enumeration of all its sequences, and again with log=True when every table entry is positive. "
-        "Non-trivial: T >= 2, some epoch with >= 2 states and the per-epoch greedy argmax of P is not optimal. Distinct = hash of the case.")
+        "Generated history: 0..2 further models (independent / same candidates with other tables / a copy of an earlier one, likelihoods or "
+        "logarithms) decoded afterwards either on ONE track object (track=same; up to 4 decodings on it, optionally with hmm_inference / "
+        "hmm_cost present before the first) or on a fresh track each (the previous behaviour); every decoding is judged by the enumeration "
+        "of its own model.  Generated hand-over of the candidate lists per decoding: share = fresh (new list per call) / epoch (one object per "
+        "epoch) / run (consecutive epochs with equal candidates get the same object) / content (all epochs with equal candidates do). "
+        "Non-trivial: T >= 2, some epoch with >= 2 states and the per-epoch greedy argmax of P is not optimal (for some model of the case). "
+        "Distinct = hash of the case.")
 
 SUBCHECKS = [
     SubCheck("small", body_small, enum=enum_small, qshards=10, tshards=16,
              rule="all models T<=3, <=2 states/epoch, likelihoods {0,1/2,1}"),
     SubCheck("models", body_model, strategy=strat_model, quick=6000, thorough=240000, qshards=6, tshards=16,
-             rule="random models T<=8, S<=5 vs. enumeration of all sequences"),
+             rule="random models T<=8, S<=5, with a history of decodings on one track and shared candidate-list objects, vs. enumeration of all sequences"),
 ]
